@@ -312,10 +312,13 @@ def run(ctx):
     import m1_mainloop
     quic = ["q2a_dissect", "q2b_session"]
     ctx.gen_tables.update(m1_mainloop.regen())
-    ctx.prove(["TLX.Props.C03", "TLX.Props.C04"] + c02_model.modules(quic))
+    quic = quic + ["quic_pipeline_corr"]
+    ctx.prove(["TLX.Props.C03", "TLX.Props.C04", "TLX.Props.C01Pipeline"] + c02_model.modules(quic))
     ctx.require_theorems(session_corr.THEOREMS_C03 + [t for t in c02_model.theorems(quic) if t.rsplit(".", 1)[1] in (
         "dissect_total", "dissect_loop_total", "dissect_progress", "session_total", "session_total_run",
         "wrong_keys_export_nothing", "wrong_keys_export_nothing_fresh", "session_total_counterexample")] + [
+        "TLX.Props.C01Pipeline.connOut_never_raises", "TLX.Props.C02Pipeline.quic_conn_never_raises",
+        "TLX.Props.C02Pipeline.quic_machine_never_raises", "TLX.Props.C02Pipeline.quic_run_never_raises"] + [
         "TLX.Props.C04." + t for t in ("tls_solo_equals_merged", "quic_solo_equals_merged", "tls_quic_independent",
                                        "unrelated_ignored", "empty_cid_never_chosen", "short_never_creates")])
     session_corr.correspond(ctx)      # ties TLX.Session (the model the theorems are about) to the real Session
